@@ -20,7 +20,7 @@ Import ListNotations.
 Theorem C19_compile_race_safe : forall cinst cmulti roots paths,
   wf cinst cmulti roots = true ->
   forall sched i r,
-    result_of (run cinst cmulti roots paths true true sched) i = Some r ->
+    result_of (run_sched cinst cmulti roots paths true true sched) i = Some r ->
     r = serial cinst cmulti roots paths i.
 Proof. exact compile_race_safe. Qed.
 Print Assumptions C19_compile_race_safe.
@@ -31,15 +31,15 @@ Print Assumptions C19_compile_race_safe.
 Theorem C19_slot_consistent : forall cinst cmulti roots paths,
   wf cinst cmulti roots = true ->
   forall sched v,
-    s_slot (run cinst cmulti roots paths true true sched) = Compiled v ->
-    final cinst cmulti roots (run cinst cmulti roots paths true true sched) v.
+    s_slot (run_sched cinst cmulti roots paths true true sched) = Compiled v ->
+    final cinst cmulti roots (run_sched cinst cmulti roots paths true true sched) v.
 Proof. exact slot_consistent. Qed.
 Print Assumptions C19_slot_consistent.
 
 Theorem C19_mutual_exclusion : forall cinst cmulti roots paths,
   wf cinst cmulti roots = true ->
   forall sched i j,
-    let st := run cinst cmulti roots paths true true sched in
+    let st := run_sched cinst cmulti roots paths true true sched in
     crit (s_pc st i) = true -> crit (s_pc st j) = true -> i = j.
 Proof. exact mutual_exclusion. Qed.
 Print Assumptions C19_mutual_exclusion.
@@ -49,7 +49,7 @@ Print Assumptions C19_mutual_exclusion.
 Theorem C19_lock_needed :
   wf ex_cinst ex_multi w_tree = true /\
   exists sched i r,
-    result_of (run ex_cinst ex_multi w_tree w_paths false true sched) i = Some r /\
+    result_of (run_sched ex_cinst ex_multi w_tree w_paths false true sched) i = Some r /\
     r <> serial ex_cinst ex_multi w_tree w_paths i.
 Proof. exact lock_needed. Qed.
 Print Assumptions C19_lock_needed.
@@ -57,7 +57,7 @@ Print Assumptions C19_lock_needed.
 (* ... and so does the system with the lock but without the re-check under the lock. *)
 Theorem C19_recheck_needed :
   exists sched i r,
-    result_of (run ex_cinst ex_multi w_tree w_paths true false sched) i = Some r /\
+    result_of (run_sched ex_cinst ex_multi w_tree w_paths true false sched) i = Some r /\
     r <> serial ex_cinst ex_multi w_tree w_paths i.
 Proof. exact recheck_needed. Qed.
 Print Assumptions C19_recheck_needed.
@@ -85,8 +85,8 @@ Print Assumptions C19_oracle_sound.
 (* Non-vacuity: under the schedule that breaks the unlocked system, the real protocol
    finishes both lookups with the serial answer. *)
 Example C19_premises_satisfiable :
-  result_of (run ex_cinst ex_multi w_tree w_paths true true (w_sched_nolock ++ repeat 1 30)) 0
+  result_of (run_sched ex_cinst ex_multi w_tree w_paths true true (w_sched_nolock ++ repeat 1 30)) 0
   = Some (serial ex_cinst ex_multi w_tree w_paths 0) /\
-  result_of (run ex_cinst ex_multi w_tree w_paths true true (w_sched_nolock ++ repeat 1 30)) 1
+  result_of (run_sched ex_cinst ex_multi w_tree w_paths true true (w_sched_nolock ++ repeat 1 30)) 1
   = Some (serial ex_cinst ex_multi w_tree w_paths 1).
 Proof. exact safe_instance. Qed.
